@@ -131,6 +131,60 @@ def r_anchor(P, chk):
         chk.obligation(rid, "families %s and %s are numbered the same way" % (a, b), ok)
         if not ok:
             chk.violation(rid, "anchor:pair:%s" % a, "html.c", "families %s and %s are numbered differently (%s vs %s)" % (a, b, ca, cb))
+    # every note call anchor (href="#fn:/#cn:/#gn:" with class footnote/citation/glossary) is governed by the
+    # first-use test: re-use prints no id, first use prints id="<fam>ref:"
+    n_calls = 0
+    for fam, stack in (("fn", "used_footnotes"), ("cn", "used_citations"), ("gn", "used_glossaries")):
+        for kind, f, c, arg, rnd in sites.get(fam, []):
+            if kind != "href":
+                continue
+            s_, _ = _format_args(c)
+            if 'class="' not in s_ or "reverse" in s_:
+                continue
+            n_calls += 1
+            gov = None
+            cur = c
+            for a in f.ancestors(c):
+                if a["k"] == "IfStmt" and ("->%s->size" % stack) in key(a["c"][0]) and "==" in key(a["c"][0]):
+                    then, els = a["c"][1], a["c"][2]
+                    if then is not None and any(x is c for x in walk(then)):
+                        gov = "reuse"
+                    elif els is not None and any(x is c for x in walk(els)):
+                        gov = "first"
+                    break
+            has_id = ('id="%sref:' % fam) in s_
+            ok = (gov == "reuse" and not has_id) or (gov == "first" and has_id)
+            chk.obligation(rid, "%s %s: %s call anchor is the %s branch of the first-use test and %s id=\"%sref:\"" % (
+                f.where(c), f.name, fam, gov, "prints" if has_id else "prints no", fam), ok)
+            if not ok:
+                chk.violation(rid, "anchor:firstuse:%s:%s" % (fam, gov or "ungoverned"), f.where(c),
+                              "%s prints a %s call anchor %s: the first call of a note must carry id=\"%sref:N\" (the list entry links "
+                              "back to it) and later calls must not" % (f.name, fam,
+                                  "outside the `== scratch->%s->size` first-use test" % stack if gov is None else
+                                  "in the %s branch %s the id" % (gov, "with" if has_id else "without"), fam))
+    chk.floor(rid, n_calls, 6, "note call anchor sites")
+    # list exporters re-read the stack size on every iteration (rendering a note body can mark further notes as used)
+    for f in P.all_funcs:
+        if not P.first_party(f):
+            continue
+        for w in f.walk():
+            if w["k"] != "ForStmt" or w["c"][1] is None:
+                continue
+            body_peeks = [x for x in walk(w["c"][3]) if x["k"] == "CallExpr" and x.get("callee") == "stack_peek_index"
+                          and re.search(r"->used_\w+$", key(x["c"][1]))]
+            if not body_peeks:
+                continue
+            stk = key(body_peeks[0]["c"][1])
+            exports = any(x["k"] == "CallExpr" and (x.get("callee") or "").startswith("mmd_export_token_tree") for x in walk(w["c"][3]))
+            if not exports:
+                continue
+            ck = key(w["c"][1])
+            ok = (stk + "->size") in ck
+            chk.obligation(rid, "%s %s: loop over %s re-reads ->size each iteration (condition %s)" % (f.where(w), f.name, stk, ck), ok)
+            if not ok:
+                chk.violation(rid, "anchor:list-bound:%s" % f.name, f.where(w), "%s iterates %s up to `%s`, a value read before the loop: "
+                              "notes first used inside another note's body are pushed while the loop runs and never get a list entry" % (
+                                  f.name, stk, ck))
     # heading labels
     n_lab = 0
     for f in P.all_funcs:
